@@ -24,6 +24,8 @@ type RangeProver struct {
 	V     []*big.Int // optional: hiders v_i chosen by the (cheating) prover; default random Lm-bit values
 	// ForceC, if set, replaces every commitment C_i by this value (e.g. 0 or N: not a group element)
 	ForceC *big.Int
+	// ForceCOnly, if >= 0 together with ForceC, replaces only the commitment at that position (the others stay honest)
+	ForceCOnly *int
 	// OwnMResponse: the returned proof carries its own response for m (MRand + c*M) instead of leaving it to the verifier
 	OwnMResponse bool
 
@@ -48,7 +50,7 @@ func (p *RangeProver) Commit() []*big.Int {
 		p.vRand[i] = RandBits(pk.Params.Lm + pk.Params.Lh + pk.Params.Lstatzk)
 		p.v5.Add(p.v5, new(big.Int).Mul(p.D[i], p.v[i]))
 		p.c[i] = mulmod(n, PowSigned(R, p.D[i], n), PowSigned(pk.S, p.v[i], n))
-		if p.ForceC != nil {
+		if p.ForceC != nil && (p.ForceCOnly == nil || *p.ForceCOnly == i) {
 			p.c[i] = new(big.Int).Set(p.ForceC)
 		}
 	}
@@ -66,8 +68,11 @@ func (p *RangeProver) Commit() []*big.Int {
 	}
 	if p.ForceC != nil && new(big.Int).GCD(nil, nil, p.ForceC, n).Cmp(one) != 0 && new(big.Int).Mod(p.ForceC, n).Sign() == 0 {
 		// C_i = 0 mod N: whatever the responses are, a verifier that multiplies C_i into its reconstruction gets 0 everywhere
+		// (with one position alone: in the relation for m, which multiplies all C_i, and in that position's own relation)
 		for i := range out {
-			out[i] = big.NewInt(0)
+			if p.ForceCOnly == nil || i == 0 || i == *p.ForceCOnly+1 {
+				out[i] = big.NewInt(0)
+			}
 		}
 	}
 	return out
